@@ -511,6 +511,17 @@ class BaseCurve(Intface_BaseCurve):
             return
         if self.knotvector.limits != newknotvector.limits:
             raise ValueError
+        if self.weights is not None:
+            numer, denom = self.fraction()
+            numer.update(newknotvector, tolerance, nodes)
+            denom.update(newknotvector, tolerance, nodes)
+            weights = denom.ctrlpoints
+            points = [pt / wi for pt, wi in zip(numer.ctrlpoints, weights)]
+            temp_curve = self.__class__(newknotvector, points, weights)
+            self.__knotvector = newknotvector
+            self.__ctrlpoints = temp_curve.ctrlpoints
+            self.__weights = temp_curve.weights
+            return
         temp_curve = self.__class__(newknotvector)
         error = temp_curve.fit_curve(self, nodes)
         if tolerance and error > tolerance:
